@@ -482,6 +482,19 @@ fn intmode_k(case: &Value, inputs: &Value) -> Value {
     json!({"restored": restored, "during_ok": during_ok, "probes": seen.len()})
 }
 
+// the real output-writing routine on a real path (observed from outside with strace)
+fn atomic_write_k(case: &Value, inputs: &Value) -> Value {
+    use chialisp::util::{atomic_write_file, gentle_overwrite};
+    let target = inputs["target"].as_str().unwrap();
+    let data = String::from_utf8_lossy(&bytes_of(&inputs["new"])).to_string();
+    let r = if case["fn"].as_str().unwrap() == "gentle_overwrite" {
+        gentle_overwrite("in.clsp", target, &data)
+    } else {
+        atomic_write_file("in.clsp", target, &data)
+    };
+    json!({"result": if r.is_ok() { "Ok" } else { "Err" }})
+}
+
 // assemble(text) -> tree (used to evaluate constant patterns natively)
 fn assemble_k(_case: &Value, inputs: &Value) -> Value {
     let mut a = Allocator::new();
@@ -496,6 +509,7 @@ pub fn dispatch(kernel: &str, case: &Value, inputs: &Value) -> Value {
         "assemble" => assemble_k(case, inputs),
         "int_from_bytes" => int_from_bytes_k(case, inputs),
         "decode" => decode_k(case, inputs),
+        "atomic_write" => atomic_write_k(case, inputs),
         "intmode" => intmode_k(case, inputs),
         "classic_text" => classic_text_k(case, inputs),
         "modern_text" => modern_text_k(case, inputs),
